@@ -187,6 +187,7 @@ type SolverResult struct {
 	Secs   float64
 	Output string
 	All    map[string]string // solver -> status, every back end that answered
+	Candidate bool // a model of the quantifier-free relaxation is attached
 }
 
 type solverSpec struct {
@@ -195,17 +196,29 @@ type solverSpec struct {
 }
 
 var solvers = []solverSpec{
-	{"z3-new-5.1.0", func(f string, t int) []string { return []string{"z3-new", fmt.Sprintf("-T:%d", t), f} }},
 	{"z3-4.8.12", func(f string, t int) []string { return []string{"/usr/bin/z3", fmt.Sprintf("-T:%d", t), f} }},
+	{"z3-new-5.1.0", func(f string, t int) []string { return []string{"z3-new", fmt.Sprintf("-T:%d", t), f} }},
 	{"cvc5-1.0.3", func(f string, t int) []string {
 		return []string{"cvc5", "--enum-inst", fmt.Sprintf("--tlimit=%d", t*1000), f}
 	}},
 }
 
-func runOne(sp solverSpec, file string, timeoutS int) (status, out string, secs float64) {
+// z3 5.1.0 was observed (on this code base, see DESIGN.md) to answer "unsat" on a
+// satisfiable-looking vacuity query, depending on seed and arithmetic back end, while
+// z3 4.8.12 and cvc5 did not. An "unsat" that only z3 5.1.0 gives is therefore accepted
+// only if z3 5.1.0 repeats it under these different configurations.
+var z3newConfirm = [][]string{
+	{"smt.random_seed=3"},
+	{"smt.random_seed=5", "smt.arith.solver=2"},
+}
+
+func runOne(sp solverSpec, file string, timeoutS int, extra ...string) (status, out string, secs float64) {
 	ctx, cancel := context.WithTimeout(context.Background(), time.Duration(timeoutS+2)*time.Second)
 	defer cancel()
 	argv := sp.argv(file, timeoutS)
+	if len(extra) > 0 {
+		argv = append(append([]string{argv[0]}, extra...), argv[1:]...)
+	}
 	cmd := exec.CommandContext(ctx, argv[0], argv[1:]...)
 	var buf bytes.Buffer
 	cmd.Stdout = &buf
@@ -230,8 +243,8 @@ func runOne(sp solverSpec, file string, timeoutS int) (status, out string, secs 
 	return
 }
 
-// Solve runs the portfolio on one query. mode "first": stop at first unsat/sat
-// (sequentially, cheap on CPU); mode "all": run every back end (thorough tier).
+// Solve runs the portfolio on one query: z3 4.8.12, then z3 5.1.0 (an unsat of which
+// needs confirmation, see above), then cvc5. all=true runs every back end (thorough tier).
 func Solve(dir, name, script string, timeoutS int, all bool) SolverResult {
 	file := filepath.Join(dir, name+".smt2")
 	if err := os.WriteFile(file, []byte(script), 0o644); err != nil {
@@ -240,14 +253,26 @@ func Solve(dir, name, script string, timeoutS int, all bool) SolverResult {
 	res := SolverResult{Status: "unknown", All: map[string]string{}}
 	var outs []string
 	total := 0.0
+	decided := false
 	for _, sp := range solvers {
 		st, out, secs := runOne(sp, file, timeoutS)
 		total += secs
+		if st == "unsat" && sp.name == "z3-new-5.1.0" && !decided {
+			for _, cfg := range z3newConfirm {
+				st2, _, secs2 := runOne(sp, file, timeoutS, cfg...)
+				total += secs2
+				if st2 != "unsat" {
+					st = "unconfirmed-unsat"
+					break
+				}
+			}
+		}
 		res.All[sp.name] = st
 		outs = append(outs, "["+sp.name+"] "+firstLines(out, 40))
 		if st == "unsat" || st == "sat" {
-			if res.Status != "unsat" && res.Status != "sat" {
+			if !decided {
 				res.Status, res.Solver, res.Output = st, sp.name, out
+				decided = true
 			} else if res.Status != st {
 				res.Status = "error"
 				res.Output = "solver disagreement: " + strings.Join(outs, "\n")
@@ -258,18 +283,17 @@ func Solve(dir, name, script string, timeoutS int, all bool) SolverResult {
 		}
 	}
 	res.Secs = total
-	if res.Status != "unsat" && res.Status != "sat" {
+	if !decided {
 		res.Output = strings.Join(outs, "\n")
-		// prefer "timeout" if any back end timed out and none said unknown
-		res.Status = "unknown"
+		res.Status = "error"
 		for _, st := range res.All {
-			if st == "timeout" {
-				res.Status = "timeout"
+			if st == "unknown" || st == "unconfirmed-unsat" {
+				res.Status = "unknown"
 			}
 		}
 		for _, st := range res.All {
-			if st == "error" {
-				res.Status = "error"
+			if st == "timeout" && res.Status != "unknown" {
+				res.Status = "timeout"
 			}
 		}
 	}
